@@ -231,6 +231,20 @@ def fields(ctx):
             for k in d.keys:
                 if isinstance(k, ast.Constant) and isinstance(k.value, str):
                     written.add(k.value)
+        elif isinstance(d, ast.Subscript) and isinstance(d.ctx, ast.Store) and isinstance(d.slice, ast.Constant) \
+                and isinstance(d.slice.value, str):
+            written.add(d.slice.value)
+        elif isinstance(d, ast.Call) and call_name(d) == "dict":
+            written |= {k.arg for k in d.keywords if k.arg}
+    # ... and what the payloads of a sparse and of a dense multivector actually contain (abstract interpretation)
+    alg_ = rep_algebra(3)
+    for keys_ in ((4, 3), canonical_keys(alg_)):
+        try:
+            out_ = encode_walk(repo, [mv_obj(alg_, tuple(keys_), [Val(f"v{k}") for k in keys_])])
+            if out_[0] == "return" and out_[1] and isinstance(out_[1][0], dict):
+                written |= {k for k in out_[1][0] if isinstance(k, str)}
+        except NoValue:
+            pass
     for n in sorted(names["payload_read"]):
         c = f"graph.js#payload:{n}"
         if n in written:
